@@ -147,7 +147,7 @@ func (d *Driver) Snapshot(ctx context.Context) (migrate.RestoreFunc, error) {
 	if err := rows.Close(); err != nil {
 		return nil, err
 	}
-	return func(ctx context.Context) error {
+	clean := func(ctx context.Context) error {
 		for _, stmt := range []string{
 			"PRAGMA writable_schema = 1;",
 			"DELETE FROM sqlite_master WHERE type IN ('table', 'view', 'index', 'trigger');",
@@ -159,6 +159,18 @@ func (d *Driver) Snapshot(ctx context.Context) (migrate.RestoreFunc, error) {
 			}
 		}
 		return nil
+	}
+	return func(ctx context.Context) error {
+		err := clean(ctx)
+		// A file that failed after it had opened a transaction (BEGIN) leaves it open: VACUUM
+		// is rejected, and the deletion above is part of that transaction. End it and retry.
+		if err != nil && strings.Contains(err.Error(), "within a transaction") {
+			if _, rerr := d.ExecContext(ctx, "ROLLBACK;"); rerr != nil {
+				return err
+			}
+			return clean(ctx)
+		}
+		return err
 	}, nil
 }
 
